@@ -68,6 +68,7 @@ func corrC07(c *corrCtx) {
 			}
 		}
 	}
+	c07Huge(c)
 	// larger files: structural boundaries ± 1
 	big := append(seedFiles(r, false), realFiles()...)
 	for _, s := range big {
@@ -92,6 +93,63 @@ func corrC07(c *corrCtx) {
 				ld = "auto"
 			}
 			c07Case(c, "bigtrunc/"+s.name, ld, s.data[:cut], fixedScheds[r.intn(len(fixedScheds))], r.intn(2) == 0, false)
+		}
+	}
+}
+
+// c07Huge: files whose metadata scan has to pass tens of MiB of ancillary data before it can stop.
+// Too large for the line protocol: the property's own oracle (the stream replays the source) is
+// evaluated directly; the theorem (C07_replay) is for every size.
+func c07Huge(c *corrCtx) {
+	r := c.rng
+	sizes := []int{34 << 20}
+	if c.thorough() {
+		sizes = append(sizes, 70<<20, 130<<20)
+	}
+	for _, total := range sizes {
+		filler := func(n int) []byte {
+			b := make([]byte, n)
+			seed := r.next()
+			for i := range b {
+				seed = seed*6364136223846793005 + 1442695040888963407
+				b[i] = byte(seed >> 56)
+				if b[i] == 0xff {
+					b[i] = 0xfe
+				}
+			}
+			return b
+		}
+		var files []seedFile
+		pd := randPngDesc(r, false, nil)
+		pd.pre, pd.post = nil, nil
+		for n := 0; n < total; n += 1 << 20 {
+			pd.pre = append(pd.pre, pngChunk{"zTXt", filler(1 << 20)})
+		}
+		b, _ := pd.build()
+		files = append(files, seedFile{"png-huge-ancillary", "png", b, 0})
+		jd := randJpegDesc(r)
+		jd.segsBefore = nil
+		for n := 0; n < total; n += 65533 {
+			jd.segsBefore = append(jd.segsBefore, jpegSeg{0xfe, filler(65533)})
+		}
+		b, _ = jd.build()
+		files = append(files, seedFile{"jpeg-huge-comments", "jpeg", b, 0})
+		wd := randWebpDesc(r, "VP8X", filler(total))
+		b, _ = wd.build()
+		files = append(files, seedFile{"webp-huge-iccp", "webp", b, 0})
+		for _, f := range files {
+			for _, ld := range []string{f.format, "auto"} {
+				res := runLoadx(ld, f.data, []int{1 << 20}, false, false)
+				c.stats["huge/"+ld]++
+				if !bytes.Equal(res.replay, f.data) || res.end != "eof" {
+					first := 0
+					for first < len(res.replay) && first < len(f.data) && res.replay[first] == f.data[first] {
+						first++
+					}
+					c.direct(fmt.Sprintf("C07/huge/%s/%s/%dMiB", f.name, ld, total>>20), "the returned stream does not replay a source with tens of MiB of ancillary data before the image data",
+						map[string]interface{}{"loader": ld, "file": f.name, "len": len(f.data), "got_len": len(res.replay), "first_difference_at": first, "end": res.end, "meta": res.meta})
+				}
+			}
 		}
 	}
 }
@@ -282,6 +340,28 @@ func corrC19(c *corrCtx) {
 		if auto.meta != want || !bytes.Equal(auto.replay, s.data) {
 			c.direct(fmt.Sprintf("C19/%s/sched=%s", s.name, schedStr(sched)), "auto-detecting loader differs from the first format-specific loader that succeeds",
 				map[string]interface{}{"auto": auto.meta, "first_success": want, "sched": schedStr(sched), "len": len(s.data), "data": hexs(trunc(s.data, 300)), "replay_ok": bytes.Equal(auto.replay, s.data)})
+		}
+		// the same bytes behind a foreign prefix in a seekable source (*bytes.Reader, as an *os.File would
+		// be) already positioned past the prefix: auto must behave as the specific loader does on what the
+		// source delivers from its current position
+		if len(s.data) < 1<<20 {
+			for _, k := range []int{3, 20, 4096}[:1+r.intn(3)] {
+				all := append(r.bytes(k), s.data...)
+				src := bytes.NewReader(all)
+				src.Read(make([]byte, k))
+				md, rest, err, p := safeLoad(loaders["auto"], src)
+				got := metaOut(md, err, p)
+				var replay []byte
+				if rest != nil {
+					replay, _ = drain(rest, len(all)+16)
+				}
+				oracle := pngOracle(s.data)
+				c.emit("auto-seekable/"+classOf(s.name), fmt.Sprintf("loadr auto %s%s", hexs(s.data), oracle), fmt.Sprintf("%s replay=%s end=eof", got, bytesDigest(replay)))
+				if got != want || !bytes.Equal(replay, s.data) {
+					c.direct(fmt.Sprintf("C19/seekable/%s/offset%d", s.name, k), "on a seekable source positioned past a prefix the auto-detecting loader differs from the first format-specific loader that succeeds on the remaining bytes",
+						map[string]interface{}{"auto": got, "first_success": want, "start_offset": k, "len": len(s.data), "replay_ok": bytes.Equal(replay, s.data)})
+				}
+			}
 		}
 	}
 }
